@@ -5,6 +5,7 @@ fails with it and passes without it) and stores it under /verif/seeded/<seed-id>
 import json, os, shutil, subprocess, sys, time
 src, sid, prop, demopkg, pkgs = sys.argv[1], sys.argv[2], sys.argv[3], sys.argv[4], sys.argv[5:]
 env = dict(os.environ, GOFLAGS="-mod=mod", GOPROXY="off", GOSUMDB="off", GOTOOLCHAIN="local")
+RACE = ["-race"] if os.environ.get("SEED_DEMO_RACE") else []   # C13 demonstrations only fail under the race detector
 wt = f"/tmp/confirm-{sid}"
 subprocess.run(["git", "-C", "/repo", "worktree", "remove", "--force", wt], capture_output=True)
 subprocess.run(["git", "-C", "/repo", "worktree", "add", "--detach", wt, "HEAD"], check=True, capture_output=True)
@@ -17,7 +18,7 @@ try:
     dst = os.path.join(wt, demopkg, "zz_seed_demo_test.go")
     # 1. clean tree: demo passes
     shutil.copy(demo, dst)
-    rc, out = run(["go", "test", "-count=1", "-run", ".", "./" + demopkg])
+    rc, out = run(["go", "test", "-count=1"] + RACE + ["-run", ".", "./" + demopkg])
     log["demo_without_change"] = "pass" if rc == 0 else "FAIL: " + out
     os.remove(dst)
     # 2. apply the change: builds, existing tests pass
@@ -29,7 +30,7 @@ try:
     log["existing_tests_with_change"] = "pass" if rc == 0 else "FAIL: " + out
     # 3. demo fails with the change
     shutil.copy(demo, dst)
-    rc, out = run(["go", "test", "-count=1", "-run", ".", "./" + demopkg])
+    rc, out = run(["go", "test", "-count=1"] + RACE + ["-run", ".", "./" + demopkg])
     log["demo_with_change"] = "fails (as required)" if rc != 0 else "PASSES (seed rejected)"
     ok = (log["demo_without_change"] == "pass" and log["build_with_change"] == "ok" and
           log["existing_tests_with_change"] == "pass" and rc != 0)
